@@ -49,7 +49,8 @@ def gen_cases(tier, seed):
                         {"op": "desc_get"}]
                 for v in vals[:5]:
                     ops += [{"op": "setraw", "v": v}, {"op": "desc_get"}]
-                cases.append({"kind": kind, "t": t, "fn": fn, "fd": fd, "descs": descs, "bitdefs": [], "ops": ops})
+                cases.append({"kind": kind, "t": t, "fn": fn, "fd": fd, "descs": descs, "bitdefs": [], "ops": ops,
+                              "fn_api": len(cases) % 2 == 1})
     # bit fields: every contiguous range within the type's width, four spellings
     for kind in ("sdo", "pdo"):
         for w, t in UTYPES.items():
